@@ -3,6 +3,14 @@
    case:  mode kind [content] pos (opcode [arg])*
             kind 0 &[u8]  1 &mut [u8]  2 Vec<u8>  3 Cursor<&[u8]>  4 Cursor<&mut [u8]>  5 File
                  6 UnixStream  7 pipe (OwnedFd)  8 Cursor<Vec<u8>>
+                 9..12 message queue (non-blocking AF_UNIX socketpair, one message per read(2)):
+                       9 SOCK_SEQPACKET as OwnedFd   10 SOCK_DGRAM as UnixStream
+                       11 SOCK_SEQPACKET as File, 12 SOCK_DGRAM as BorrowedFd, both driven through
+                       VolatileSlice::{read_volatile_from, read_exact_volatile_from, write_volatile_to,
+                       write_all_volatile_to}(0, fd, len) (volatile_memory.rs:799-831: offset(0) /
+                       get_slice(0, len) of the buffer's own slice, then the same ReadVolatile /
+                       WriteVolatile call - the same model step).
+                       [content] / [out] of a message queue: every message followed by the marker 256.
             opcode 0 read [prefill]  1 read_exact [prefill]  2 write [data]  3 write_all [data]  4 set_position [p]
    obs:   per operation 13 tokens: adapter  rk n [buffer after] margins_ok [stream data] pos [out]
                                    std twin rk n [buffer after] [stream data] pos [out]
@@ -100,7 +108,8 @@ Definition run_C13 (c : case13) : list opobs :=
 Definition kind_of (n : N) : option skind :=
   match n with
   | 0 => Some KSliceR | 1 => Some KSliceW | 2 => Some KVecW | 3 => Some KCurR | 4 => Some KCurW
-  | 5 => Some KFile | 6 => Some KQueue | 7 => Some KQueue | 8 => Some KCurR | _ => None end.
+  | 5 => Some KFile | 6 => Some KQueue | 7 => Some KQueue | 8 => Some KCurR
+  | 9 | 10 | 11 | 12 => Some KMsgQ | _ => None end.
 
 Fixpoint parse_ops (l : list tok) {struct l} : option (list op13) :=
   match l with
@@ -139,6 +148,13 @@ Definition enc_op (ob : opobs) : list tok :=
 Definition enc13 (obs : list opobs) : list tok := flat_map enc_op obs.
 
 Definition bytes_ok (l : list N) : bool := forallb (fun x => x <? 256) l.
+(* the initial contents of a stream: bytes; for a message queue bytes and end-of-message markers, the
+   last message terminated *)
+Definition content_ok (k : skind) (l : list N) : bool :=
+  match k with
+  | KMsgQ => forallb (fun x => x <=? MSG_END) l && match l with [] => true | _ => last l 0 =? MSG_END end
+  | _ => bytes_ok l
+  end.
 Definition op_ok (k : skind) (o : op13) : bool :=
   op_allowed k o && bytes_ok (op_buf o) && match o with OSetPos p => p <? W64 | _ => true end.
 
@@ -146,7 +162,7 @@ Definition op_ok (k : skind) (o : op13) : bool :=
    ntake / ndrop / repeat): the shrinker and the neighbourhood search of lib/runner.py perturb case
    tokens freely (e.g. 2^64-1).  A slice starts inside its array; file offsets stay small. *)
 Definition pos_sane (k : skind) (len p : N) : bool :=
-  match k with KSliceR | KSliceW => p <=? len | KFile => p <=? 65536 | _ => true end.
+  match k with KSliceR | KSliceW => p <=? len | KFile => p <=? 65536 | KMsgQ => p =? 0 | _ => true end.
 Definition op_sane (k : skind) (o : op13) : bool :=
   match o, k with OSetPos p, KFile => p <=? 65536 | _, _ => true end.
 Definition obs_sane (k : skind) (ob : opobs) : bool := pos_sane k (nlen (a_data ob)) (a_pos ob).
@@ -156,7 +172,7 @@ Definition suite_C13 (inp obs : list tok) : verdict :=
   | TN md :: TN kd :: TL content :: TN pos :: opl =>
       match kind_of kd, parse_ops opl, parse_obs obs with
       | Some k, Some ops, Some o =>
-          if bytes_ok content && (pos <? W64) && forallb (op_ok k) ops
+          if content_ok k content && (pos <? W64) && forallb (op_ok k) ops
              && pos_sane k (nlen content) pos && forallb (op_sane k) ops then
             let c := {| c_mode := if md =? 0 then Debug else Release; c_kind := k;
                         c_init := {| s_data := content; s_pos := pos; s_out := [] |}; c_ops := ops |} in
